@@ -240,7 +240,7 @@ pub fn attribution_for(j: &Job) -> Attribution {
     }
 }
 
-pub const FAMILY_RULE: &str = "family E: every typed expression tree with exactly k operator nodes (8 arithmetic/bit ops, shifts, 6 comparisons, && ||, - !, casts among 6 types, if, match, let-block, call) over leaves {x, y, boundary literals}, for (x,y) in u8^2 and i8^2, and (k <= 1, thorough k <= 2) over u64/i64/u16/i32/usize with boundary grids; family S: every sequence of <=n statement templates (27 simple: plain/op-assignment through 0-2 accessors with constant and input-dependent indices, aggregate copies, shadowing, calls mutating their parameter, side-effecting operand blocks; compound: if / if-else / match / for / for-range / block / for-join / nested if-in-for with bodies from a core set) over 7 variables, returning all of them; family X: an effect block (assigns to a mutable variable of main and/or fails, then yields a value) placed in every expression position - if condition, match scrutinee, either operand of every operator, call argument, aggregate literal element, index, cast, let initialiser, assignment right-hand side, loop iterable - including positions whose value does not depend on it (0*H, H&0, (H,7).1, if true {..}, ...) and pairs of sibling blocks (evaluation order); family A: reads / writes / compound writes at input-dependent indices for every array length of a boundary list (1, powers of two and neighbours, up to 257) with indices at, around and far beyond the length, plus deliberately nested programs (loop in arm in loop, call in index in assignment, enum in struct in array); family L: a few programs with 10^5 - 10^6 gates (the same product / quotient before and after many unrelated ones), so that size-dependent behaviour is seen; family I (value part): every template by which an integer literal meets its type, each literal suffixed or not in every subset, must - when accepted - compute the outputs of the fully suffixed program; family P: every sequence of <=n (failing-operation site x conditional wrapper) pairs incl. verbatim repeats and constant-foldable sites; every program is compiled by the real compiler in each configuration and evaluated by the real evaluator on every input of its input set; oracle = reference interpreter (value, panic reason, panic location); non-trivial = program with >=2 distinct observed outputs";
+pub const FAMILY_RULE: &str = "family E: every typed expression tree with exactly k operator nodes (8 arithmetic/bit ops, shifts, 6 comparisons, && ||, - !, casts among 6 types, if, match, let-block, call) over leaves {x, y, boundary literals}, for (x,y) in u8^2 and i8^2, and (k <= 1, thorough k <= 2) over u64/i64/u16/i32/usize with boundary grids; family S: every sequence of <=n statement templates (27 simple: plain/op-assignment through 0-2 accessors with constant and input-dependent indices, aggregate copies, shadowing, calls mutating their parameter, side-effecting operand blocks; compound: if / if-else / match / for / for-range / block / for-join / nested if-in-for with bodies from a core set) over 7 variables, returning all of them; family X: an effect block (assigns to a mutable variable of main and/or fails, then yields a value) placed in every expression position - if condition, match scrutinee, either operand of every operator, call argument, aggregate literal element, index, cast, let initialiser, assignment right-hand side, loop iterable - including positions whose value does not depend on it (0*H, H&0, (H,7).1, if true {..}, ...) and pairs of sibling blocks (evaluation order); family A: reads / writes / compound writes at input-dependent indices for every array length of a boundary list (1, powers of two and neighbours, up to 257) with indices at, around and far beyond the length, assignments and compound assignments through an index followed by further accessors (b[i].0 = v, b[i].g += v, b[i][j] = v, b[i].1[j] |= v) for every array length 1..9 (thorough: up to 33) and every index up to length + 1 and far beyond, plus deliberately nested programs (loop in arm in loop, call in index in assignment, enum in struct in array); family L: a few programs with 10^5 - 10^6 gates (the same product / quotient before and after many unrelated ones), so that size-dependent behaviour is seen; family I (value part): every template by which an integer literal meets its type, each literal suffixed or not in every subset, must - when accepted - compute the outputs of the fully suffixed program; family P: every sequence of <=n (failing-operation site x conditional wrapper) pairs incl. verbatim repeats and constant-foldable sites; every program is compiled by the real compiler in each configuration and evaluated by the real evaluator on every input of its input set; oracle = reference interpreter (value, panic reason, panic location); non-trivial = program with >=2 distinct observed outputs";
 
 pub fn coverage_json(fr: &FamilyRun, rule: &str, budget: &Budget) -> serde_json::Value {
     json!({
